@@ -116,13 +116,32 @@ fn check_input(r: &Report, i: &RTxIn) {
             let xi = q.extract_tx().ok().map(|t| t.input[0].issuance_ids());
             alts.push((name.to_string(), pi, xi));
         }
-        (a, b, c, d, e, ex.map(|t| t == tx), alts)
+        // consensus-serialization hops: the input decoded from its own encoding, alone and inside the transaction, and the
+        // PSET input built from that decoded input
+        let mut hops: Vec<(&'static str, Option<(AssetId, AssetId)>)> = Vec::new();
+        // (an issuance on the all-ones index cannot be expressed on the wire: that index carries no flag bits)
+        if lib_in.previous_output.vout != 0xffff_ffff {
+        hops.push(("decoded-txin", elements::encode::deserialize::<elements::TxIn>(&elements::encode::serialize(&lib_in)).ok().map(|x| x.issuance_ids())));
+        let dtx = elements::encode::deserialize::<elements::Transaction>(&elements::encode::serialize(&tx)).ok();
+        hops.push(("decoded-transaction-input", dtx.as_ref().map(|x| x.input[0].issuance_ids())));
+        hops.push(("pset-input-from-decoded-transaction", dtx.as_ref().map(|x| PsetInput::from_txin(x.input[0].clone()).issuance_ids())));
+        hops.push(("pset-from-decoded-transaction-extracted", dtx.as_ref().and_then(|x| Pset::from_tx(x.clone()).extract_tx().ok()).map(|x| x.input[0].issuance_ids())));
+        }
+        (a, b, c, d, e, ex.map(|t| t == tx), alts, hops)
     });
     let t = |x: (AssetId, AssetId)| (x.0.to_byte_array(), x.1.to_byte_array());
     match res {
         Err(p) => r.violation(format!("panic/{}", kind), case(), p),
-        Ok((a, b, c, d, e, _same, alts)) => {
+        Ok((a, b, c, d, e, _same, alts, hops)) => {
             r.trace(1);
+            for (name, ids) in hops {
+                r.trans(1);
+                match ids {
+                    Some(x) if t(x) == exp => {}
+                    Some(x) => r.violation(format!("{}-ids-differ/{}", name, kind), case(), format!("asset={} token={} expected asset={}", hex(&t(x).0), hex(&t(x).1), hex(&exp.0))),
+                    None => r.violation(format!("{}-failed/{}", name, kind), case(), "the input's own consensus encoding does not decode"),
+                }
+            }
             for (name, pi, xi) in alts {
                 r.trans(1);
                 match xi {
